@@ -93,6 +93,16 @@ CLAIMED["C15"] = (
     "chunkings) compared exactly inside Coq; binning() scale/positions/ids compared inside Coq; binned.load == block-sum of the "
     "larger original load (exact integers, numpy/dask, compute flags, single/batch) by metamorphic oracle.",
     "regenerated anchors + Coq theorems (lia/field) + in-Coq correspondence")
+CLAIMED["C08"] = (
+    "Theorems (Coq): the index grid of all three get_indices copies equals the FFT index order for every size (odd and even); "
+    "over any commutative ring (hence R and every orientation / box shape) the value the code tests, k . (R^T n / shape), equals "
+    "the property's (R (k/shape)) . n; the predicate is even in k and zero at k = 0; decided bins are symmetric under k -> -k and DC "
+    "is always kept; mirror bins negate the index except at Nyquist; the tilt-selection chain honours tuple, model and legacy "
+    "keyword; union = maximum, no-wedge = ones (structural anchors). Tie: grid subtrahend, (i)fftshift choice, normal scaling and "
+    "predicate shape regenerated from all copies; index grids and masks (24 exact rotations, odd/even/non-cubic shapes, 5 tilt "
+    "ranges, x/y/dual axes, 3 entry points) compared bin-by-bin with the exact rational predicate inside Coq (bins within 1e-4 of a "
+    "plane skipped). Generic orientations vs an independent float reference, realness for odd shapes, entry points: oracle.",
+    "regenerated anchors + Coq theorems (lia/ring) + in-Coq bin correspondence")
 NOT_YET = "machinery for this property is not built yet in this revision (see DESIGN.md §6 for the planned model)"
 
 def main():
